@@ -21,13 +21,16 @@ TARGETS = ['valjean.cosette.env:Env.from_file', 'valjean.cosette.env:Env.to_file
            'valjean.cambronne.common:read_env', 'valjean.cambronne.common:write_env']
 BOUNDS = {'quick': {'real pickle job': '2 tasks, payload plain / numpy array / an Env inside the payload, DONE or FAILED, written once or twice to a real directory',
                     'tasks': '1 (all 5 statuses), 2 (statuses DONE/FAILED/WAITING)', 'output_dir': 'present or absent per task',
-                    'faults': 'per file: older intact DONE file / missing before; write: ok, open fails (any errno), crash leaving empty or truncated file; '
+                    'faults': 'per file: older intact DONE file / missing before; write: ok, open fails (any errno), crash leaving empty or truncated file, '
+                              'crash while the entry is being serialised (into the open file or, for implementations that serialise first, into memory); '
                               'read: open fails (errno symbolic), garbage; unpickling raises any documented exception'},
           'thorough': {'tasks': '<= 2 with all statuses and faults; 3 with statuses DONE/FAILED and faults ok/crash-truncated', 'faults': 'as quick'}}
 ASSUMPTIONS = ['the byte level of pickle is stubbed by its contract: load of an intact file returns what dump stored; load of an empty, truncated or '
                'garbage file raises one of EOFError, pickle.UnpicklingError, AttributeError, ImportError, IndexError, ValueError (truncating a real '
                'pickled Env at every byte gives EOFError/UnpicklingError: checked at start-up)',
-               'a crash during the write phase leaves the file being written empty or truncated and skips the remaining files',
+               'a crash during the write phase leaves the file being written empty or truncated and skips the remaining files; the stubs offer both '
+               'styles of use (dump into / load from an open file; dumps + write / read + loads), so that a rewrite in the other style is judged on '
+               'its behaviour',
                'payloads are picklable']
 OUTSIDE = ['payloads that cannot be pickled', 'unpicklers that hang on garbage', 'file-system errors other than OSError on open()']
 EXPLANATION = ('bounded symbolic execution (symrun + z3) of the real persistence code against fault-injecting stubs of open() and pickle; '
@@ -41,9 +44,28 @@ class Crash(BaseException):
     """the process dies during the write phase"""
 
 
+class _Blob:
+    """stands for the bytes of one serialised object (dumps) or for the whole content of one file (read)"""
+
+    def __init__(self, obj=None, path=None):
+        self.obj, self.path = obj, path
+
+
 class _F:
     def __init__(self, fs, path, mode):
         self.fs, self.path, self.mode = fs, path, mode
+
+    def write(self, blob):
+        # an implementation that serialises first (dumps) and writes the bytes afterwards
+        if not isinstance(blob, _Blob) or blob.obj is None:
+            raise TypeError('the file stub only takes what the pickle stub produced')
+        if self.fs.write_fault.get(self.path, 'ok') in ('crash-truncated', 'crash-serializing'):
+            self.fs.files[self.path] = ('bad', 'truncated')
+            raise Crash()
+        self.fs.files[self.path] = ('intact', blob.obj)
+
+    def read(self, *a):
+        return _Blob(path=self.path)
 
     def __enter__(self):
         return self
@@ -80,11 +102,25 @@ class World:
     # pickle stub
     def dump(self, obj, file_, *a, **k):
         f = self.write_fault.get(file_.path, 'ok')
-        if f == 'crash-truncated':
+        if f in ('crash-truncated', 'crash-serializing'):
+            # the process dies while the object is being serialised into the (already opened, hence truncated) file
             self.files[file_.path] = ('bad', 'truncated')
             raise Crash()
         # snapshot through the real __getstate__/__setstate__ protocol (deep copy by real pickle)
         self.files[file_.path] = ('intact', pickle.loads(pickle.dumps(obj)))
+
+    def dumps(self, obj, *a, **k):
+        # serialisation into memory: the file it is meant for is the one of the (single) task of a partial environment
+        names = list(getattr(obj, 'dictionary', {}) or {})
+        for nm in names:
+            if self.write_fault.get(f'/out/{nm}/{FILENAME}') == 'crash-serializing':
+                raise Crash()          # the process dies while serialising; whatever is on disk stays as it is
+        return _Blob(obj=pickle.loads(pickle.dumps(obj)))
+
+    def loads(self, blob, *a, **k):
+        if not isinstance(blob, _Blob) or blob.path is None:
+            raise TypeError('the pickle stub only takes what the file stub produced')
+        return self.load(blob)
 
     def load(self, file_, *a, **k):
         kind, val = self.files[file_.path]
@@ -135,7 +171,7 @@ def make_harness(n, statuses=None, first=None, light=False):
             if 'output_dir' in ent and ex.flag(f'older-file{i}'):
                 world.files[path] = ('intact', Env({nm: {'status': TaskStatus.DONE, 'result': ('payload', i, 'old'),
                                                         'output_dir': f'/out/{nm}'}}))
-            wfs = ['ok', 'crash-truncated'] if light else ['ok', 'openfail', 'crash-empty', 'crash-truncated']
+            wfs = ['ok', 'crash-truncated'] if light else ['ok', 'openfail', 'crash-empty', 'crash-truncated', 'crash-serializing']
             world.write_fault[path] = wfs[ex.choice(len(wfs), f'write-fault{i}')]
         world.errno_w = ex.int('errno-w', 1, 200)
         before = {p: v for p, v in world.files.items()}
@@ -175,7 +211,9 @@ def make_harness(n, statuses=None, first=None, light=False):
                 content = older[1].dictionary.get(nm) if older is not None else None      # untouched
                 if wf == 'openfail' and not dead and 'output_dir' in now[nm]:
                     pass
-            elif wf in ('crash-empty', 'crash-truncated'):
+            elif wf in ('crash-empty', 'crash-truncated', 'crash-serializing'):
+                # the run ended (killed) with this task in the state now[nm], which was never persisted completely: the task is
+                # "not done" for the next run, whatever an earlier run had left in that file
                 content = None
                 dead = True
             else:
